@@ -26,8 +26,9 @@ Definition (statement of C15 / DESIGN 4/C15)
 * dissimilarity d(a, b) = S(a, a) + S(b, b) - 2 S(a, b); NaN as soon as one of the three is NaN.
 * Conditions are listed in order of first appearance of their label.
 
-`None` marks a value that is *undefined* (correlation of a vector that is constant on the
-valid channels, or with fewer than two valid channels); it propagates to every average it
+`None` marks a value that is *undefined* (correlation of a vector that is constant - or, for
+numerical stability of the quotient, nearly constant: variance below 1e-4 of its squared
+magnitude - on the valid channels, or with fewer than two valid channels); it propagates to every average it
 enters and the caller excludes those entries from the judgement.
 """
 import math
@@ -90,8 +91,8 @@ def kernel(method, x, y, precision=None, prior_lambda=1.0, prior_weight=0.1):
         syy = sum((y[c] - my) ** 2 for c in v)
         sxy = sum((x[c] - mx) * (y[c] - my) for c in v)
         scale = max(1.0, max(abs(x[c]) for c in v), max(abs(y[c]) for c in v)) ** 2
-        if sxx <= 1e-12 * scale or syy <= 1e-12 * scale:
-            return None, w
+        if sxx <= 1e-4 * scale or syy <= 1e-4 * scale:
+            return None, w      # constant, or too close to constant for a stable quotient
         r = sxy / math.sqrt(sxx) / math.sqrt(syy)
         return r * w / 2.0, w
     if method in ('poisson', 'poisson_cv'):
